@@ -18,17 +18,20 @@ def default_app():
             # the arguments travel with the request (several requests may be in flight on different threads)
             st = ombott.request.environ.get('verif.static') or _state
             kw = dict(st.get('kw') or {})
-            return ombott.static_file(st['name'], st['root'], **kw)
+            res = ombott.static_file(st['name'], st['root'], **kw)
+            if st.get('after'):
+                st['after']()        # the handler goes on after static_file() has answered (removes its temporary file, deploys)
+            return res
         app.route('/__static__', method=['GET', 'HEAD'], callback=h)
         _state['route'] = True
     return app
 
 
-def serve(name, root, method='GET', rng=None, ims=None, between=None, **kw):
+def serve(name, root, method='GET', rng=None, ims=None, between=None, between_in_handler=False, **kw):
     app = default_app()
     _state.update(name=name, root=root, kw=kw)
     env = base_environ(REQUEST_METHOD=method, PATH_INFO='/__static__')
-    env['verif.static'] = {'name': name, 'root': root, 'kw': kw}
+    env['verif.static'] = {'name': name, 'root': root, 'kw': kw, 'after': between if between_in_handler else None}
     if rng is not None:
         env['HTTP_RANGE'] = rng
     if ims is not None:
@@ -38,7 +41,7 @@ def serve(name, root, method='GET', rng=None, ims=None, between=None, **kw):
     def sr(status, headers, exc_info=None):
         rec['status'], rec['headers'] = status, list(headers)
     out = app(env, sr)
-    if between is not None:
+    if between is not None and not between_in_handler:
         between()        # what happens on the server between the answer being decided and its body being sent
     chunks = []
     try:
